@@ -266,7 +266,8 @@ def rule_errflow(ctx, R):
     """Results of fallible calls in run()/check()/parse_file() are propagated, not dropped or unwrapped"""
     fb = ctx.fb
     n = 0
-    for name in ("hyeong::app::run::run", "hyeong::app::check::run", "hyeong::util::ext::parse_file", "hyeong::core::execute::execute", "hyeong::core::execute::execute_one", "hyeong::core::execute::push_stack_wrap"):
+    for name in ("hyeong::app::run::run", "hyeong::app::check::run", "hyeong::util::ext::parse_file", "hyeong::core::execute::execute", "hyeong::core::execute::execute_one", "hyeong::core::execute::push_stack_wrap",
+                 "hyeong::core::execute::pop_stack_wrap", "hyeong::util::io::read_file", "hyeong::util::io::read_line_from", "<std::io::Stdin as hyeong::util::io::ReadLine>::read_line_"):
         b = fb.bodies.get(name)
         if not R.anchor(b is not None, name, name):
             continue
@@ -288,8 +289,19 @@ def rule_errflow(ctx, R):
             o = ("call", cn, tuple(org.of_operand(a, bi, "t") for a in t["args"]))
             returned = t["dest"]["l"] == 0
             ok = repr(o) in tried or returned or _flows_to_try(b, fb, org, t["dest"]["l"])
+            if not ok and _flows_to_unwrap(b, fb, t["dest"]["l"]):
+                continue  # unwrapped on purpose: a panic-capable site, judged by C13.PANIC's audit
             R.check(ok, "errflow:%s:%s" % (name, cn), "the Result of %s in %s is propagated (?) or returned" % (cn.rsplit("::", 2)[-2] + "::" + cn.rsplit("::", 1)[-1], name.rsplit("::", 1)[-1]), t["span"]["at"])
     R.floor("fallible_calls", n, 20, "fallible calls in run/check/parse_file/execute*")
+
+
+def _flows_to_unwrap(b, fb, local):
+    for b2, t2 in b.calls():
+        if callee_name(t2["f"], fb).rsplit("::", 1)[-1] in ("unwrap", "expect") and t2["args"]:
+            a = t2["args"][0]
+            if a["k"] in ("copy", "move") and a["p"]["l"] == local:
+                return True
+    return False
 
 
 def _flows_to_try(b, fb, org, local):
@@ -336,6 +348,28 @@ def rule_diag(ctx, R):
         roles = Roles(pn, fb, param_roles={1: "W", 2: "ERR"})
         msgs = [bi for bi, t in pn.calls() if callee_name(t["f"], fb) == IO + "print_error_str_no_exit" and "Error::get_msg(ERR)" in roles.of_operand(t["args"][1], bi)]
         R.check(bool(msgs) and not reaches_without(cfg, [0], cfg.returns, cut_blocks=msgs), "diag:message_unconditional", "print_error_no_exit prints the error's message on every path (whether or not the error carries a note)", pn.span)
+    if pn is not None:
+        # the note: printed exactly when there is one
+        ev_ = Events(pn, fb, roles=roles)
+        notes = [bi for bi, t in pn.calls() if callee_name(t["f"], fb).startswith(IO + "print_note")]
+        guard_t, guard_f = [], []
+        for gb, blk in enumerate(pn.blocks):
+            tt = blk["term"]
+            if tt["k"] == "switch" and not blk["cleanup"]:
+                for s_ in cfg.succ[gb]:
+                    lab = ev_.generic_edge(gb, tt, s_) or ""
+                    if "is_empty(" in lab and "get_note" in lab:
+                        (guard_t if lab.endswith("=0") else guard_f).append((gb, s_))
+        ok = bool(notes) and len(guard_t) == 1 and len(guard_f) == 1 and all(not reaches_without(cfg, [0], nb, cut_edges=guard_t) for nb in notes) and not reaches_without(cfg, [guard_t[0][1]], cfg.returns, cut_blocks=notes)
+        R.check(ok, "diag:note_iff", "the note of an error is printed exactly when it is not empty", pn.span)
+    mb = fb.bodies.get("hyeong::main")
+    if R.anchor(mb is not None, "main", "fn main"):
+        mroles = Roles(mb, fb)
+        hs = [(bi, t) for bi, t in mb.calls() if callee_name(t["f"], fb) == IO + "handle"]
+        if R.anchor(len(hs) >= 1, "handle_call", "main's calls of io::handle"):
+            for k_, (hb_, ht_) in enumerate(hs):
+                w = mroles.of_operand(ht_["args"][0], hb_)
+                R.check(w.startswith("StandardStream::stderr("), "diag:on_stderr:%d" % k_, "diagnostics go to the standard error stream: %s" % w[:60], ht_["span"]["at"])
     ps = fb.by_path.get(IO + "print_error_str_no_exit") if hasattr(fb, "by_path") else None
     cands = [b for n, b in fb.bodies.items() if n.startswith(IO + "print_error_str_no_exit")]
     if R.anchor(bool(cands), "print_error_str_no_exit", "io::print_error_str_no_exit"):
@@ -356,3 +390,11 @@ def rule_diag(ctx, R):
 
 
 RULES.append(("C13.DIAG", "a failing run ends with a diagnostic: the message of every error is printed unconditionally before exit(1)", rule_diag))
+
+
+def rule_exittable(ctx, R):
+    from . import p_c01
+    return p_c01.rule_pop(ctx, R)
+
+
+RULES.append(("C13.EXITTABLE", "the status a program asks for: popping stack 1 ends with status 0, stack 2 with status 1, after flushing both streams (shared with C01.POP)", rule_exittable))
